@@ -51,7 +51,7 @@ class Prop(object):
     LEVEL = 'model_checking'
     TECHNIQUE = 'exhaustive exploration of all operation sequences up to the depth bound on the real code under an owned (recording / scripted) random source'
     RULE = ('every sequence up to the depth bound over the menu {passphrase-encrypt (2 messages x 3 ciphers), key-encrypt (RSA, Curve25519, P-256, P-384, P-521; repeated '
-            'identical arguments allowed), multi-recipient encrypt (keys + passphrase; two passphrases), protect (2 keys x 2 configurations)}, each run under the recording source and under two '
+            'identical arguments allowed; with a caller-supplied session key used again for the same ECDH recipient in the same and in the next message), multi-recipient encrypt (keys + passphrase; two passphrases), protect (2 keys x 2 configurations)}, each run under the recording source and under two '
             'scripted sources. One state = one history (sequence of operations); a transition = one operation with all its random fields checked.')
     ASSUMPTIONS = ['PGPy draws session keys, prefixes, salts and IVs through os.urandom (interposed); randomness inside OpenSSL (PKCS#1 padding, ephemeral '
                    'ECDH keys) cannot be interposed: ephemeral points are only checked for pairwise distinctness, their unpredictability is not established',
@@ -71,6 +71,11 @@ class Prop(object):
         m.append(('key', 'm1', 'cv25519', 'CAST5'))
         m.append(('key', 'm2', 'ecdh-p384', 'AES192'))
         m.append(('key', 'm1', 'ecdh-p521', 'AES128'))
+        # a session key the caller supplies (sessionkey=, the documented way to address several recipients) and uses again: the ephemeral ECDH key is new
+        # for every session-key packet all the same - also for the same recipient, in one message ('twice') or in the next one ('samekey')
+        m.append(('samekey', 'm1', 'cv25519', 'AES128'))
+        m.append(('samekey', 'm1', 'ecdh-p256', 'AES128'))
+        m.append(('twice', 'm1', 'cv25519', 'AES256'))
         m.append(('multi', 'm2', 'Camellia128'))
         m.append(('multipass', 'm1', 'AES128'))
         m.append(('protect', 'kA', 'AES256', 'SHA256'))
@@ -194,7 +199,7 @@ class Prop(object):
             for i, op in enumerate(ops):
                 src.op = i
                 r.transitions += 1
-                if op[0] in ('pass', 'key', 'multi', 'multipass'):
+                if op[0] in ('pass', 'key', 'multi', 'multipass', 'samekey', 'twice'):
                     m = msgs[op[1]]
                     cipher = op[-1]
                     c = SymmetricKeyAlgorithm[cipher]
@@ -204,6 +209,12 @@ class Prop(object):
                         recips = ['pass']
                     elif op[0] == 'key':
                         e = R.key_recipient(op[2])[1].encrypt(m, cipher=c)
+                        recips = [op[2]]
+                    elif op[0] in ('samekey', 'twice'):
+                        sk = hashlib.sha256(b'caller-supplied session key').digest()[:klen]
+                        e = R.key_recipient(op[2])[1].encrypt(m, cipher=c, sessionkey=sk)
+                        if op[0] == 'twice':
+                            e = R.key_recipient(op[2])[1].encrypt(e, cipher=c, sessionkey=sk)
                         recips = [op[2]]
                     elif op[0] == 'multipass':
                         # two passphrase recipients of one message: each session-key packet has its own salt
@@ -226,8 +237,16 @@ class Prop(object):
                         else:
                             pt, info = rmsg.decrypt(blob, [R.key_recipient(rc)[2]], ())
                             if 'ephemeral' in info:
-                                claim('ephemeral ECDH point', info['ephemeral'], i, must_be_drawn=False)
-                                pubraw = R.key_recipient(rc)[2]
+                                # one ephemeral point per session-key packet addressed to this recipient
+                                pts = []
+                                for esk in rmsg.recognise(blob)['esks']:
+                                    if esk['tag'] == 1 and esk['body'][9] == 18:
+                                        nbits = int.from_bytes(esk['body'][10:12], 'big')
+                                        pts.append(bytes(esk['body'][12:12 + (nbits + 7) // 8]))
+                                if len(pts) != (2 if op[0] == 'twice' else 1) and len(recips) == 1:
+                                    probs.append(('session-key-packets', '%d ECDH session-key packets in the output' % len(pts)))
+                                for pt_ in pts:
+                                    claim('ephemeral ECDH point', pt_, i, must_be_drawn=False)
                         if pt != bytes(m):
                             probs.append(('wrong-plaintext', 'reference decryption differs'))
                         sks.add(bytes(info['session_key']))
@@ -235,7 +254,11 @@ class Prop(object):
                     if len(sks) != 1:
                         probs.append(('session-keys-differ', 'recipients of one message recover different session keys'))
                     sk = sks.pop()
-                    claim('session key', sk, i, size=klen)
+                    if op[0] in ('samekey', 'twice'):
+                        if sk != hashlib.sha256(b'caller-supplied session key').digest()[:klen]:
+                            probs.append(('session-key-not-the-supplied-one', 'the recovered session key is not the one the caller supplied'))
+                    else:
+                        claim('session key', sk, i, size=klen)
                     claim('prefix', prefix, i, size=bs)
                     if sk in blob:
                         probs.append(('session-key-in-clear', 'the session key of operation %d appears in the output' % i))
